@@ -74,6 +74,11 @@ def map_table(ctx, rule, fnrec, m, src_enum, src_variants, dst_enum, inst_prefix
 
 
 def run(ctx):
+    _run_main(ctx)
+    key_material_refreshed_everywhere(ctx)
+
+
+def _run_main(ctx):
     F = ctx.facts
     ctx.explanation = ("Per sibling key-object type (discovered from KeyObjectInternal's fields): verify/decipher decision table (Revoked -> Err, "
                        "Valid|Retained -> verifier call), load / to_key_iter / DbValueKeyStatus variant maps are the identity on status names, revoke "
@@ -466,3 +471,16 @@ def check_signer(ctx, g, T):
     ctx.check(bool(nb), rule, g["fn"], "newest", "next_back()",
               f"{tn}::{gm} does not take the last element of the range (next_back/last): the newest valid key must be used for new signatures", file=g["file"], line=g["line"])
     ctx.sample(f"{tn}::{gm}: active.range(..=now).next_back()")
+
+
+# ---------------------------------------------------------------------------------------------------------------------
+# verify/decipher consult the *loaded* key objects. A revocation stored in the database only stops signatures from
+# verifying once the key material is reloaded, so every write path — replication included — must refresh it.
+# (added after seeded change C34: the replication consumer raised KEY_MATERIAL only if the entry "changed since my cid",
+# which is false for every replicated change; a key revoked on one server kept verifying on its replica)
+
+def key_material_refreshed_everywhere(ctx):
+    from .lib.x_reload import check_setting
+    check_setting(ctx, "K2-key-material-refreshed", "KEY_MATERIAL", "reload_key_material",
+                  "the loaded key objects stay stale on this server: a key revoked elsewhere keeps verifying / deciphering here",
+                  ("EntryClass::KeyProvider", "EntryClass::KeyObject"))
